@@ -650,6 +650,20 @@ func genRepr(c *GenCtx) {
 		}
 		c.add("repr-ends", e, `{"a":`+tn(a)+`,"b":`+tn(b)+`,"arr":[`+tn(a)+`,`+tn(x)+`,`+tn(b)+`],"objs":[{"k":`+tn(a)+`,"i":0},{"k":`+tn(b)+`,"i":1},{"k":`+tn(x)+`,"i":2}]}`)
 	}
+	// integer arguments at the ends of the int64 range in every representation that holds them, floats included
+	// (no arithmetic here, so the float fast path is not involved)
+	intArgExprs := []string{"find_first('abcabc', 'b', a)", "find_last('abcabc', 'b', a)", "find_first('abcabc', 'b', `0`, a)", "pad_left('x', a)", "pad_right('x', a, '-')",
+		"split('a,b,c', ',', a)", "replace('aaa', 'a', 'b', a)", "to_number(a)", "a == b", "a < b", "abs(a)", "ceil(a)", "floor(a)", "-a", "type(a)", "[a, b] | sort(@)", "max([a, b])", "contains([a], b)"}
+	ends := []string{"9223372036854775808", "-9223372036854775808", "9223372036854775807", "4611686018427387904", "-4611686018427387904", "2147483648", "18446744073709551616", "-9223372036854777856",
+		"9007199254740992", "0", "1", "-1", "3"}
+	for k := 0; k < n/4; k++ {
+		a, b := r.Pick(ends), r.Pick(ends)
+		e := r.Pick(intArgExprs)
+		if strings.Contains(e, "pad_") && len(a) > 3 && a[0] != '-' {
+			continue // a huge positive width is a legitimate huge result
+		}
+		c.add("repr-intarg", e, `{"a":`+c.typedNum(a)+`,"b":`+c.typedNum(b)+`}`)
+	}
 }
 
 // ---------------------------------------------------------------------------------------------
